@@ -629,6 +629,9 @@ def check_box_guards(ctx):
         params = [a.arg for a in fn.args.args[1:]]
         sup = next((c for c in ast.walk(fn) if isinstance(c, ast.Call) and ast.unparse(c.func) == "super().__init__"), None)
         ctx.need(sup is not None, "biclosed.%s.__init__ does not call super().__init__" % cname)
+        typ = [ast.unparse(a) for a in sup.args[1:3]] + ["%s=%s" % (k.arg, ast.unparse(k.value)) for k in sup.keywords if k.arg in ("dom", "cod")]
+        ctx.ob("R18.5", "%s.%s.__init__:type" % (BIC_, cname), typ in (["dom", "cod"], ["dom=dom", "cod=cod"], ["dom", "cod=cod"]), found=typ, required="the box is typed by the dom and cod computed from the slash types, "
+               "in this order", mod=BIC_, node=sup, sig="box-type:" + cname)
         g = FlowGraph(fn)
         guards = [(st.test, how) for st, lab, how in g.raising_guards_before(sup) if lab == "T"]
         for k, cls in table.items():
